@@ -2,7 +2,8 @@
 //! 2^64 successes every call returns MessageLimitReached.
 
 use super::common::*;
-use crate::engine::{pick_index, Obs, Property, Tier, Verdict};
+use crate::engine::{pick_index, Extra, Obs, Property, Tier, Verdict};
+use serde_json::json;
 use crate::gen::{self, Msg, Session};
 use crate::refmodel::hpke_ref::{AeadId, KdfId, KemId, Suite};
 use crate::suite::{self, DynSuite, Fail};
@@ -285,14 +286,97 @@ fn delivery() -> BoxedStrategy<Delivery> {
     (kind, any::<bool>()).prop_map(|(kind, in_place)| Delivery { kind, in_place }).boxed()
 }
 
+/// Public-API-only endurance run: `n` rejected deliveries (alternating forms, tampered tag /
+/// garbage / short) on one receiver, then the genuine first message must still be accepted and the
+/// second after it. "After any history of open attempts" includes very long ones.
+fn long_rejection_run(aead: AeadId, n: u64) -> Result<u64, (String, String)> {
+    let s = Suite { kem: KemId::X25519, kdf: KdfId::Sha256, aead };
+    let d = suite::get(s);
+    let sess = gen::cell_session(s, 0, 505);
+    let keys = sess.keys();
+    let infra = |m: &str| ("infra".to_string(), m.to_string());
+    let (enc, mut snd) = honest_sender(d, &sess, &keys).map_err(|_| infra("setup failed"))?;
+    let mut rcv = honest_receiver(d, &sess, &keys, &enc).map_err(|_| infra("setup failed"))?;
+    let c0 = snd.seal(b"first message", b"a0").map_err(|_| infra("seal failed"))?;
+    let c1 = snd.seal(b"second message", b"").map_err(|_| infra("seal failed"))?;
+    let mut bad_tag = c0[c0.len() - 16..].to_vec();
+    bad_tag[0] ^= 1;
+    let garbage = [0x5au8; 16];
+    for i in 0..n {
+        let r = match i % 4 {
+            0 => {
+                let mut body = c0[..c0.len() - 16].to_vec();
+                rcv.open_in_place(&mut body, b"a0", &bad_tag).map_err(|f| format!("{:?}", f)).map(|_| ())
+            }
+            1 => rcv.open(&garbage, b"").map_err(|e| format!("{:?}", e)).map(|_| ()),
+            2 => rcv.open(&c1, b"").map_err(|e| format!("{:?}", e)).map(|_| ()), // a future message
+            _ => rcv.open(&c0[..7], b"a0").map_err(|e| format!("{:?}", e)).map(|_| ()),
+        };
+        match r {
+            Err(e) if e.contains("OpenError") => {}
+            other => {
+                return Err((
+                    "C05/long-run/rejection-changed".into(),
+                    format!("{}: rejected delivery #{} on one receiver returned {:?} instead of OpenError", aead.name(), i, other),
+                ))
+            }
+        }
+    }
+    match rcv.open(&c0, b"a0") {
+        Ok(p) if p == b"first message" => {}
+        other => {
+            return Err((
+                "C05/long-run/next-rejected-after-many-failures".into(),
+                format!("{}: after {} rejected deliveries the in-sequence message was not accepted: {:?}", aead.name(), n, other.map(|p| p.len())),
+            ))
+        }
+    }
+    match rcv.open(&c1, b"") {
+        Ok(p) if p == b"second message" => Ok(n),
+        other => Err(("C05/long-run/next-rejected-after-many-failures".into(), format!("{}: after {} rejected deliveries and one success the next message was not accepted: {:?}", aead.name(), n, other.map(|p| p.len())))),
+    }
+}
+
 impl Property for P {
     type Case = Case;
     fn id(&self) -> &'static str {
         "C05"
     }
+    fn extra(&self, tier: Tier, _seed: u64, x: &mut Extra) {
+        let n: u64 = tier.pick(3 << 20, 1 << 26);
+        let results: Vec<(AeadId, Result<u64, (String, String)>)> = std::thread::scope(|sc| {
+            let hs: Vec<_> = AeadId::SEALING.into_iter().map(|a| (a, sc.spawn(move || long_rejection_run(a, n)))).collect();
+            hs.into_iter().map(|(a, h)| (a, h.join().unwrap_or_else(|_| Err(("infra".into(), "long run panicked".into()))))).collect()
+        });
+        let mut runs = serde_json::Map::new();
+        for (a, r) in results {
+            match r {
+                Ok(k) => {
+                    x.evaluations += k;
+                    runs.insert(a.name().to_string(), json!({"rejected_deliveries_on_one_receiver": k, "hooks_used": false}));
+                }
+                Err((sig, msg)) if sig == "infra" => x.infra_error = Some(msg),
+                Err((sig, msg)) => {
+                    if x.failure.is_none() {
+                        x.failure = Some((sig, msg, json!({"long_rejection_run": a.name(), "n": n})));
+                    }
+                }
+            }
+        }
+        x.notes.insert("long_rejection_runs".into(), serde_json::Value::Object(runs));
+    }
+    fn replay_extra(&self, payload: &serde_json::Value, x: &mut Extra) {
+        let n = payload["n"].as_u64().unwrap_or(3 << 20);
+        let a = AeadId::SEALING.into_iter().find(|a| Some(a.name()) == payload["long_rejection_run"].as_str()).unwrap_or(AeadId::ChaCha);
+        if let Err((sig, msg)) = long_rejection_run(a, n) {
+            if sig != "infra" {
+                x.failure = Some((sig, msg, payload.clone()));
+            }
+        }
+    }
     fn rule(&self) -> String {
         "Generated: (sealing suite or SpyAead, mode, session, start position from every byte-carry boundary / 2^64-1-d / log-uniform / 0 (hook), pool of 1..=8 messages sealed from that position, history of 1..=24 deliveries {next, replay, future, tampered ct bit, tampered tag bit, wrong aad, short (<Nt), garbage, the same plaintext sealed at a position differing in one bit of the sequence number (hook)} x {open, open_in_place_detached}). \
-         Swept: every delivery kind x both APIs at start positions {0, 1, 255, 256, 2^64-2, 2^64-1} including the exhausted state. \
+         Swept: every delivery kind x both APIs at start positions {0, 1, 255, 256, 2^64-2, 2^64-1} including the exhausted state. Endurance: 3*2^20 (thorough: 2^26) rejected deliveries on ONE receiver per AEAD through the public API only, after which the in-sequence messages must still be accepted. \
          Oracle: model p = successes; only Next succeeds (returning pt_p) and advances by exactly one; everything else gives OpenError and does not move the position (hook state == model after every step); after the success at 2^64-1 every call of either form gives MessageLimitReached with the in-place buffer unchanged; single_shot_open accepts message 0 and rejects message 1. \
          Non-trivial: a history containing success -> rejected delivery -> success, or one that crosses the limit."
             .into()
